@@ -309,6 +309,7 @@ func runC02(r *core.Run) {
 	// the cheaper, wider parts first: an internal deadline (thorough tier) then only cuts into the largest cross products
 	c02Reduced(r, redDts)
 	c02SliceIntoReused(r)
+	c02Narrow(r)
 	c02Nested(r, append([]ref.DT{ref.Float64}, redDts...))
 	for _, sw := range sweeps {
 		for _, shape := range sw.shapes {
@@ -761,6 +762,99 @@ func c02SliceIntoReused(r *core.Run) {
 					return core.F("wrong-value", fmt.Sprintf("%x", core.H64(k)), "SliceInto into a recycled view (%s) differs from Slice: %s", variant, strings.Join(fails, " ; "))
 				})
 			}
+		}
+	}
+}
+
+// c02Narrow: the package-level shorthand Narrow(t, dim, start, length) is the slice [start : start+length] of axis dim
+// (every other axis whole), for every axis (negative axes count from the end), start and length - also those that
+// reach past the axis (clamped) or start past it (refused) - compared with the model.
+func c02Narrow(r *core.Run) {
+	d := ref.Float64
+	for _, shape := range [][]int{{4}, {3, 2}, {2, 3}, {2, 3, 2}, {1, 3, 1}} {
+		for _, lay := range []string{"C", "T", "S", "F"} {
+			if !r.Take() {
+				continue
+			}
+			shape, lay := shape, lay
+			id := fmt.Sprintf("C02|Narrow|%s|%s", shapeStr(shape), lay)
+			if r.ReplayCase != "" && id != r.ReplayCase {
+				continue
+			}
+			r.Case(id, true, func() *core.Fail {
+				n := ref.Prod(shape)
+				vals := make([]interface{}, n)
+				for i := range vals {
+					vals[i] = d.Code(i + 1)
+				}
+				var fails []string
+				for dim := -len(shape); dim < len(shape); dim++ {
+					ax := dim
+					if ax < 0 {
+						ax += len(shape)
+					}
+					for start := 0; start <= shape[ax]; start++ {
+						for length := 1; length <= shape[ax]+1; length++ {
+							tensor.VerifResetPools()
+							b := buildVerified(d, shape, vals, lay)
+							if b == nil {
+								return nil
+							}
+							sl := make([]ref.Sl, ax+1)
+							for i := range sl {
+								sl[i] = ref.Sl{Nil: true}
+							}
+							sl[ax] = ref.Sl{Start: start, End: start + length, Step: 1}
+							mv, _, merr := b.View.Slice(sl)
+							var got tensor.View
+							var gerr error
+							o := call(func() error { got, gerr = tensor.Narrow(b.T, dim, start, length); return nil })
+							r.Op(1)
+							what := fmt.Sprintf("Narrow(dim %d, start %d, length %d) of %v layout %s", dim, start, length, shape, lay)
+							if merr == ref.ErrUnspecified {
+								continue
+							}
+							if merr != nil {
+								if o.Class == "ok" && gerr == nil {
+									fails = append(fails, what+": accepted, the model refuses: "+merr.Error())
+								}
+								continue
+							}
+							if o.Class != "ok" || gerr != nil {
+								fails = append(fails, fmt.Sprintf("%s: refused (%v %s)", what, gerr, o))
+								continue
+							}
+							gd, ok := got.(*tensor.Dense)
+							if !ok {
+								continue
+							}
+							els, err := atlas.Logical(gd)
+							if err != nil {
+								fails = append(fails, what+": unreadable: "+err.Error())
+								continue
+							}
+							if len(els) != len(mv.Cell) {
+								fails = append(fails, fmt.Sprintf("%s: %d elements (shape %v), expected %d (shape %v)", what, len(els), gd.Shape(), len(mv.Cell), mv.Shape))
+								continue
+							}
+							for i, c := range mv.Cell {
+								if !ref.Same(els[i], ref.SliceGet(b.Root, c)) {
+									fails = append(fails, fmt.Sprintf("%s: element %d is %s, expected %s", what, i, ref.Fmt(els[i]), ref.Fmt(ref.SliceGet(b.Root, c))))
+									break
+								}
+							}
+						}
+					}
+				}
+				if len(fails) > 0 {
+					k := strings.Join(fails, " ; ")
+					if len(fails) > 6 {
+						k = strings.Join(fails[:6], " ; ") + fmt.Sprintf(" ; ... %d more", len(fails)-6)
+					}
+					return core.F("wrong-value", fmt.Sprintf("%x", core.H64(strings.Join(fails, ";"))), "%s", k)
+				}
+				return nil
+			})
 		}
 	}
 }
